@@ -89,6 +89,53 @@ type emission struct {
 	ins  ssa.Instruction
 	op   int64
 	isOK bool
+	via  ssa.Value // the non-constant value (a phi or a local assigned constants) the byte is one possible value of
+}
+
+// constBytes: the constants a value can be (a constant, a phi of constants, a local only ever assigned constants).
+func constBytes(v ssa.Value, depth int) ([]int64, bool) {
+	if depth > 4 {
+		return nil, false
+	}
+	switch x := v.(type) {
+	case *ssa.Const:
+		n, ok := constInt(x)
+		return []int64{n}, ok
+	case *ssa.Phi:
+		var out []int64
+		for _, e := range x.Edges {
+			ns, ok := constBytes(e, depth+1)
+			if !ok {
+				return nil, false
+			}
+			out = append(out, ns...)
+		}
+		return out, true
+	case *ssa.UnOp:
+		if al, ok := x.X.(*ssa.Alloc); ok && x.Op == token.MUL {
+			var out []int64
+			for _, r := range *al.Referrers() {
+				switch y := r.(type) {
+				case *ssa.Store:
+					if y.Addr != ssa.Value(al) {
+						return nil, false
+					}
+					ns, ok := constBytes(y.Val, depth+1)
+					if !ok {
+						return nil, false
+					}
+					out = append(out, ns...)
+				case *ssa.UnOp, *ssa.DebugRef:
+				default:
+					return nil, false
+				}
+			}
+			return out, len(out) > 0
+		}
+	case *ssa.Convert:
+		return constBytes(x.X, depth+1)
+	}
+	return nil, false
 }
 
 func opEmissions(c *Ctx) []emission {
@@ -103,8 +150,19 @@ func opEmissions(c *Ctx) []emission {
 					continue
 				}
 				if callsFn(call, appendIns) {
-					n, isC := constInt(call.Call.Args[1])
-					out = append(out, emission{fn, ins, n, isC})
+					if n, isC := constInt(call.Call.Args[1]); isC {
+						out = append(out, emission{fn, ins, n, true, nil})
+					} else if ns, ok := constBytes(call.Call.Args[1], 0); ok {
+						seenN := map[int64]bool{}
+						for _, n := range ns {
+							if n != 0 && !seenN[n] { // 0: the zero value of a `var op byte` declared before a switch assigns it
+								seenN[n] = true
+								out = append(out, emission{fn, ins, n, true, call.Call.Args[1]})
+							}
+						}
+					} else {
+						out = append(out, emission{fn, ins, 0, false, nil})
+					}
 					continue
 				}
 				if bi, ok := call.Call.Value.(*ssa.Builtin); ok && bi.Name() == "append" && insF != nil {
@@ -114,7 +172,7 @@ func opEmissions(c *Ctx) []emission {
 								continue // the parameter of AppendInstruction itself
 							}
 							n, isC := constInt(e)
-							out = append(out, emission{fn, ins, n, isC})
+							out = append(out, emission{fn, ins, n, isC, nil})
 						}
 					}
 				}
